@@ -1,6 +1,7 @@
 package mon
 
 import (
+	"bytes"
 	"encoding/binary"
 	"fmt"
 	"math/rand/v2"
@@ -256,6 +257,100 @@ func c02BackwardChain(n, users int, closing bool) []byte {
 	return b
 }
 
+// c02StructuredTLV: one OPT (or SVCB) record whose LAST option/parameter has a payload that is
+// nearly well-formed for its code: inner length fields, prefix lengths and element sizes are off by
+// a little, so decoders that derive a slice bound from a field inside the payload are exercised at
+// the very end of the message (where an over-read leaves the input).
+func c02StructuredTLV(r *rand.Rand) []byte {
+	svcb := r.IntN(3) == 0
+	var code uint16
+	var data []byte
+	rnd := func(n int) []byte {
+		b := make([]byte, n)
+		for i := range b {
+			b[i] = byte(r.IntN(256))
+		}
+		return b
+	}
+	if !svcb {
+		switch r.IntN(8) {
+		case 0, 1, 2: // client subnet: family, source prefix, scope, address of any length
+			code = 8
+			fam := []uint16{0, 1, 1, 2, 2, 3}[r.IntN(6)]
+			max := map[uint16]int{0: 0, 1: 32, 2: 128, 3: 255}[fam]
+			prefix := r.IntN(max + 2)
+			alen := r.IntN(18)
+			if r.IntN(2) == 0 {
+				alen = (prefix+7)/8 + r.IntN(3) - 1
+				if alen < 0 {
+					alen = 0
+				}
+			}
+			data = append(binary.BigEndian.AppendUint16(nil, fam), byte(prefix), byte(r.IntN(max+1)))
+			data = append(data, rnd(alen)...)
+		case 3: // cookie 8 + 0/8..32, any length
+			code = 10
+			data = rnd([]int{0, 1, 7, 8, 9, 15, 16, 24, 40, 41}[r.IntN(10)])
+		case 4: // EDE: info code + text
+			code = 15
+			data = rnd(r.IntN(4))
+		case 5: // LLQ (18), UL (4/8), expire (0/4), keepalive (0/2), with lengths around those
+			code = []uint16{1, 2, 9, 11}[r.IntN(4)]
+			data = rnd([]int{0, 1, 2, 3, 4, 5, 7, 8, 9, 17, 18, 19}[r.IntN(12)])
+		case 6: // DAU/DHU/N3U/NSID/padding/zoneversion/reporting channel
+			code = []uint16{5, 6, 7, 3, 12, 19, 18}[r.IntN(7)]
+			data = rnd(r.IntN(6))
+		default:
+			code = uint16(r.IntN(22))
+			data = rnd(r.IntN(20))
+		}
+	} else {
+		switch r.IntN(7) {
+		case 0: // mandatory: list of 16-bit keys
+			code, data = 0, rnd([]int{0, 1, 2, 3, 4, 5}[r.IntN(6)])
+		case 1: // alpn: length-prefixed strings
+			code = 1
+			n := r.IntN(4)
+			for i := 0; i < n; i++ {
+				l := r.IntN(5)
+				data = append(data, byte(l+r.IntN(3)-1))
+				data = append(data, rnd(l)...)
+			}
+		case 2: // port
+			code, data = 3, rnd(r.IntN(4))
+		case 3: // ipv4hint / ipv6hint: multiples of 4 / 16, +-1
+			code = []uint16{4, 6}[r.IntN(2)]
+			data = rnd([]int{0, 3, 4, 5, 8, 15, 16, 17, 32, 33}[r.IntN(10)])
+		case 4: // ech, dohpath, ohttp, tls-supported-groups
+			code = []uint16{5, 7, 8, 9, 2}[r.IntN(5)]
+			data = rnd(r.IntN(5))
+		default:
+			code = uint16(r.IntN(12))
+			data = rnd(r.IntN(20))
+		}
+	}
+	var rd []byte
+	if svcb {
+		rd = append(rd, 0, 1, 0)
+	} else if r.IntN(2) == 0 { // a harmless option in front
+		rd = append(rd, 0, 3, 0, 2, 'i', 'd')
+	}
+	rd = binary.BigEndian.AppendUint16(rd, code)
+	rd = binary.BigEndian.AppendUint16(rd, uint16(len(data)))
+	rd = append(rd, data...)
+	b := make([]byte, 12, 32+len(rd))
+	binary.BigEndian.PutUint16(b[10:], 1)
+	b = append(b, 0)
+	if svcb {
+		b = append(b, 0, 65)
+	} else {
+		b = append(b, 0, 41)
+	}
+	b = append(b, 0, 1, 0, 0, 0, 0)
+	b = binary.BigEndian.AppendUint16(b, uint16(len(rd)))
+	return append(b, rd...)
+}
+
 // tlvSoup wraps hostile TLV data into an OPT or SVCB record inside a message.
 func c02TLVSoup(r *rand.Rand) []byte {
 	var rd []byte
@@ -357,7 +452,8 @@ func c02Input(w *core.W, b []byte, kind string) {
 	w.Eval(1)
 	w.Progress()
 	wit := map[string]any{"input": hx(b), "kind": kind}
-	in := append([]byte(nil), b...) // the decoders get their own copy; b stays the pristine witness
+	in := make([]byte, len(b)) // the decoders get their own copy of exactly the input's size (no spare capacity); b stays the pristine witness
+	copy(in, b)
 	m := new(dns.Msg)
 	var err error
 	before := allocated()
@@ -376,6 +472,23 @@ func c02Input(w *core.W, b []byte, kind string) {
 		w.Violation("C02/work-not-linear/Msg.Unpack", fmt.Sprintf("Msg.Unpack took %d label/pointer steps for an input of %d octets (bound %d)", work, len(b), 128*len(b)+512), wit)
 	}
 	c02Reuse(w, b, m, err, wit)
+	// the same input at the front of a larger buffer (a pooled receive buffer) whose spare capacity
+	// holds other octets: the result may not depend on anything behind the input
+	{
+		big := bytes.Repeat([]byte{0xA5}, len(b)+96)
+		copy(big, b)
+		m3 := new(dns.Msg)
+		var e3 error
+		if !w.Guard("Msg.Unpack(spare capacity)", wit, func() { e3 = m3.Unpack(big[:len(b)]) }) {
+			if (e3 == nil) != (err == nil) {
+				w.Violation("C02/depends-on-octets-behind-input/verdict", fmt.Sprintf("exact-size buffer: %v; same input with foreign octets in the spare capacity: %v", err, e3), wit)
+			} else if err == nil {
+				if d := bridge.Diff(m, m3); d != "" {
+					w.Violation("C02/depends-on-octets-behind-input/content", "decoding the same input from a buffer with foreign octets behind it differs at "+d, wit)
+				}
+			}
+		}
+	}
 	bound := uint64(1024*len(b) + 64*1024)
 	w.Max("alloc_per_input_octet", float64(delta)/float64(len(b)+1))
 	if delta > bound {
@@ -438,7 +551,8 @@ func c02Input(w *core.W, b []byte, kind string) {
 		if off > len(b) || off < 0 {
 			continue
 		}
-		in2 := append([]byte(nil), b...)
+		in2 := make([]byte, len(b))
+		copy(in2, b)
 		var rr dns.RR
 		var o1 int
 		w.Guard("UnpackRR", wit, func() { rr, o1, err = dns.UnpackRR(in2, off) })
@@ -470,7 +584,8 @@ func c02Input(w *core.W, b []byte, kind string) {
 	if len(b) <= 2000 {
 		for _, t := range []uint16{41, 64, 65, 42, 47, 50, 55, 45, 260, 46, 6, 16, 35, 257, 249, 250, 62, 37} {
 			h := dns.RR_Header{Name: ".", Rrtype: t, Class: 1, Ttl: 0, Rdlength: uint16(len(b))}
-			in3 := append([]byte(nil), b...)
+			in3 := make([]byte, len(b))
+			copy(in3, b)
 			var rr dns.RR
 			w.Guard("UnpackRRWithHeader/"+typeName(t), wit, func() { rr, _, err = dns.UnpackRRWithHeader(h, in3, 0) })
 			if err == nil && rr != nil {
@@ -568,6 +683,8 @@ func c02Crafted(w *core.W, j int) {
 	for k := 0; k < 60; k++ {
 		c02Input(w, c02PointerGraph(r), "pointer-graph")
 		c02Input(w, c02TLVSoup(r), "tlv-soup")
+		c02Input(w, c02StructuredTLV(r), "structured-tlv")
+		c02Input(w, c02StructuredTLV(r), "structured-tlv")
 	}
 	// long chains of strictly backward pointers inside opaque RDATA, used by many tiny records
 	for _, n := range []int{100, 126, 127, 128, 300, 2000, 8000} {
@@ -639,7 +756,7 @@ func init() {
 	core.Register(&core.Monitor{
 		ID: "C02", Level: "exploration", Plan: plan, Run: run, Terminates: true, CaseTimeout: 120e9,
 		Rule: "structure-aware mutations of valid (uncompressed and model-compressed) messages of all types (truncation at every point of short ones, bit/byte flips, counts/RDLENGTH/label-length/pointer fields set to boundary values, type swaps, splices), " +
-			"adversarial pointer graphs (self, forward, mutual, 1..200-hop chains, into a label, beyond the message, >255 expansions; chains of 100..8000 strictly backward pointers inside opaque RDATA used by 1..2000 records, open and closed into a loop), lying counts over tiny bodies, OPT/SVCB TLV soup, random strings 0..65535; " +
+			"adversarial pointer graphs (self, forward, mutual, 1..200-hop chains, into a label, beyond the message, >255 expansions; chains of 100..8000 strictly backward pointers inside opaque RDATA used by 1..2000 records, open and closed into a loop), lying counts over tiny bodies, OPT/SVCB TLV soup, nearly well-formed payloads per EDNS0 option / SVCB key as the last thing in the message (client-subnet family x prefix x address length, cookie/LLQ/UL/expire/keepalive sizes, alpn/hint/mandatory element sizes), each input decoded from an exact-capacity copy and again from a buffer with foreign octets behind it, random strings 0..65535; " +
 			"every decoder (Msg.Unpack, UnpackRR, UnpackRRWithHeader under 18 types, UnpackDomainName at 5 offsets, IsMsg); oracle: no panic/fatal/hang, TotalAlloc delta <= 1024*len+64KiB, label/pointer-walk steps (verif counter) <= 128*len+512, decoding into a Msg that held another message equals decoding into a fresh one, offsets inside the input, records >= 11 octets each (questions >= 1), accepted names valid by the model, " +
 			"accepted results survive String/Len/Copy/Pack/IsDuplicate/Truncate; non-trivial = distinct input accepted by Msg.Unpack",
 		Assumptions: []string{"allocation measured with runtime.ReadMemStats in a single-goroutine worker", "a hang is a watchdog firing three times on the isolated case"},
